@@ -1200,6 +1200,8 @@ func TestVerifC11Meta(t *testing.T) {
 			vm11Corruption(r, fixed, false)
 		case rf.System == "meta-resealed-mismatch":
 			vm11Corruption(r, fixed, true)
+		case strings.HasPrefix(rf.System, "meta-restore-batch-boundary/"):
+			vm11Boundaries(r, rf.System)
 		case strings.HasPrefix(rf.System, "meta-restore-crash-retry/"):
 			for _, imp := range vm11Importers {
 				if strings.HasSuffix(rf.System, "/"+imp.name) {
@@ -1217,6 +1219,10 @@ func TestVerifC11Meta(t *testing.T) {
 		vm11Corruption(r, fixed, true)
 		return
 	}
+	if os.Getenv("VM11_ONLY") == "boundary" {
+		vm11Boundaries(r, "")
+		return
+	}
 	vm11Corruption(r, fixed, false)
 	vm11Corruption(r, fixed, true)
 	vm11CrashRetry(r, fixed, vm11Importers[1])
@@ -1225,5 +1231,6 @@ func TestVerifC11Meta(t *testing.T) {
 		vm11CrashRetry(r, fixed, vm11Importers[0])
 		vm11CrashRetry(r, fixed, vm11Importers[2])
 	}
+	vm11Boundaries(r, "")
 	r.Assume("metadata content is compared through the typed API for a fixed menu of rows and byte-wise through the hash-slot export of the target slot and its neighbour")
 }
